@@ -155,4 +155,13 @@ def run(ctx: Ctx):
     for k in range(4 if not ctx.thorough else 12):
         ecases.append(scen.gen(ctx.seed * 100000 + 1800 + k, layout="sparse", kills=False, land=False, speed=1.0, continuous=False, nsteps=7,
                                scheme=["RK4", "RK2"][k % 2], rev=bool(k % 4 == 2), subgrid="none", frame_gaps=[[1], [1, 1, 2], [2, 1]][k % 3]))
+    # a loaded window with different offsets in x and y over a metric that changes from row to row: the step of a particle is
+    # scaled with the spacing of its own cell
+    for k in range(3 if not ctx.thorough else 9):
+        seed_ = ctx.seed * 100000 + 1900 + k
+        imax_, jmax_ = [(12, 10), (9, 13), (11, 11), (10, 12)][seed_ % 4]
+        sc = scen.gen(seed_, layout="sparse", kills=False, land=False, speed=0.5, continuous=False, nsteps=6, scheme=["RK4", "EF", "RK2"][k % 3], rev=False,
+                      subgrid=[3, imax_ - 1, 1, jmax_ - 2])
+        sc["dx"] = (128.0 * np.array([1.0, 2.0, 0.5, 4.0])[np.arange(jmax_) % 4][:, None] * np.ones((jmax_, imax_))).tolist()
+        ecases.append(sc)
     scen.e2e_stream(ctx, "whole-run", ecases, "Ladim.C01.advect_EF/RK2/RK4 with the velocity of Ladim.Simulation.velocity_seen at the stage times")
